@@ -26,6 +26,11 @@ methods.  Two observers:
      gram queued behind it for a live destination must still be sent within the bound, and no
      single service call may keep calling send() without end.
 
+  K  (socket level): real udp / uxd PeerMemoer whose socket object is replaced by a proxy with a
+     scripted sendto(): EAGAIN, EWOULDBLOCK, ENOBUFS, ENOMEM (all four mean "would block, retry":
+     the peer's send() must report 0 and the gram must survive), unreachable errnos (may drop),
+     a truncated real sendto (partial) or the real sendto.  Same model, same bound.
+
 Also a few runs over real sockets (UXD datagram peers with a small send buffer so the kernel really
 reports would-block; UDP loopback incl. an unreachable port), same model on what sendto accepted.
 """
@@ -65,7 +70,8 @@ ASSUMPTIONS = [
 ]
 NSHARDS = {"quick": 8, "thorough": 16}
 TIMEOUT_S = {"quick": 240, "thorough": 1500}
-REQUIRE = {"unreachable_after_zero_or_partial": 1500, "dead_peer_cases_drained": 1000, "hook_evaluations": 20000, "sends_partial": 5000, "sends_zero": 5000, "sends_unreachable": 1000,
+REQUIRE = {"socket_script_runs": 150, "sock_inject_EAGAIN": 20, "sock_inject_EWOULDBLOCK": 20, "sock_inject_ENOBUFS": 20,
+           "sock_inject_ENOMEM": 20, "sock_wouldblock_on_retry": 20, "unreachable_after_zero_or_partial": 1500, "dead_peer_cases_drained": 1000, "hook_evaluations": 20000, "sends_partial": 5000, "sends_zero": 5000, "sends_unreachable": 1000,
            "grams_sent_in_full": 20000, "grams_dropped_unreachable": 500, "progress_checks": 5000,
            "real_socket_runs": 4, "real_wouldblock_seen": 1, "real_unreachable_after_wouldblock": 1}
 EXHAUSTIVE = {
@@ -118,6 +124,20 @@ def cases(tier, seed, shard, nshards):
                             yield {"kind": "enum-dead", "grams": grams, "script": [], "api": api, "late": [],
                                    "dead": [[9, list(prefix), en]]}
                         i += 1
+    # socket-level scripts on real udp / uxd peers
+    S9 = ["real", "half", "EAGAIN", "EWOULDBLOCK", "ENOBUFS", "ENOMEM", "ECONNREFUSED", "ENOENT", "EHOSTUNREACH"]
+    for ln in range(1, (2 if quick else 3) + 1):
+        for script in itertools.product(S9, repeat=ln):
+            if all(a == "real" for a in script):
+                continue
+            for transport in ("udp", "uxd"):
+                if i % nshards == shard:
+                    yield {"kind": "sock-" + transport, "script": list(script), "api": APIS[i % 3]}
+                i += 1
+    srng = random.Random(f"{seed}:C21:sock:{shard}")
+    for k in range((80 if quick else 1600) // nshards):
+        yield {"kind": "sock-" + srng.choice(["udp", "uxd"]), "api": srng.choice(APIS[:3]),
+               "script": [srng.choice(S9[:6] if srng.random() < 0.8 else S9) for _ in range(srng.randint(3, 14))]}
     # real sockets: a handful per run, spread over shards
     nreal = 6 if quick else 24
     for k in range(nreal):
@@ -502,6 +522,8 @@ def progress_phase(case, ctx, m, trace):
 def run_case(case, ctx):
     if case["kind"].startswith("real-"):
         return run_real(case, ctx)
+    if case["kind"].startswith("sock-"):
+        return run_sock(case, ctx)
     ms.reset_mids()
     small = sum(n for n, _ in case["grams"]) + sum(n for _, n, _ in case["late"]) <= 248 and \
         len(case["grams"]) + len(case["late"]) <= 8
@@ -612,6 +634,8 @@ def _recording(base):
                 raise
             if cnt == 0:
                 self._vf_ctx.count("real_wouldblock_seen")
+            elif hasattr(self, "_vf_chunks"):
+                self._vf_chunks.append((offered[:cnt], dst))
             self._vf_observe(offered, dst, cnt)
             return cnt
 
@@ -622,6 +646,137 @@ def _recording(base):
                 except Violation as v:
                     self._vf_violation = v
     return Recording
+
+
+WOULDBLOCK = ("EAGAIN", "EWOULDBLOCK", "ENOBUFS", "ENOMEM")
+
+
+class SockProxy:
+    """Stands in for Peer.ls: sendto() follows a script, everything else is the real socket."""
+
+    def __init__(self, real, script, ctx):
+        self._real = real
+        self._script = list(script)
+        self._ctx = ctx
+        self.fresh_next = True
+
+    def sendto(self, data, dst):
+        act = self._script.pop(0) if self._script else "real"
+        if act == "real":
+            return self._real.sendto(data, dst)
+        if act == "half":
+            return self._real.sendto(bytes(data[:max(1, len(data) // 2)]), dst)
+        self._ctx.count("sock_inject_" + act)
+        raise OSError(getattr(errno, act), os.strerror(getattr(errno, act)))
+
+    def __getattr__(self, name):
+        return getattr(self._real, name)
+
+
+def run_sock(case, ctx):
+    """Real udp/uxd PeerMemoer, scripted sendto at the socket: would-block errnos must not lose or raise."""
+    ms.reset_mids()
+    transport = case["kind"].split("-")[1]
+    tmp = tempfile.mkdtemp(prefix="vfc21-")
+    peers = []
+    trace = []
+    sender = None
+    try:
+        if transport == "uxd":
+            from hio.core.uxd import peermemoing as pm
+            sender = _recording(pm.PeerMemoer)(name="s", temp=False, headDirPath=tmp, bc=1)
+            rcv = [pm.PeerMemoer(name=n, temp=False, headDirPath=tmp, bc=1) for n in ("r", "g")]
+        else:
+            from hio.core.udp import peermemoing as pm
+            sender = _recording(pm.PeerMemoer)(name="s", ha=("127.0.0.1", 0), bc=4)
+            rcv = [pm.PeerMemoer(name=n, ha=("127.0.0.1", 0), bc=16) for n in ("r", "g")]
+        peers = [sender] + rcv
+        for p in peers:
+            if not p.reopen():
+                raise AssertionError("harness: could not open a real peer")
+        dsts = [r.path if transport == "uxd" else r.ha for r in rcv]
+        sender._vf_model = model = Model()
+        sender._vf_ctx = ctx
+        sender._vf_violation = None
+        sender._vf_sends = 0
+        sender._vf_spin = False
+        sender._vf_chunks = []
+        sender.ls = SockProxy(sender.ls, case["script"], ctx)
+        for idx, d in enumerate([0, 0, 1, 0, 1]):
+            g = gram_bytes(idx, 90 + 7 * idx, False)
+            sender.gramit(g, dsts[d])
+            model.queue(g, dsts[d])
+        bound = len(case["script"]) + 2 * len(model.G) + 5
+        for r in range(bound):
+            call_api_real(sender, case["api"])
+            trace.append(["call", r])
+            if sender._vf_violation is not None:
+                break
+            if not sender.ls._script and not sender.txgs and sender.txbs[1] is None:
+                break
+        if sender._vf_violation is not None:
+            v = sender._vf_violation
+            ctx.violation(v.key, f"[{case['kind']}] " + v.msg + f" | socket script {case['script']} transport log "
+                                 f"{model.log[-10:]}", trace=trace)
+            return
+        if model.i < len(model.G) and model.i in model.unreach and not sender.txgs and sender.txbs[1] is None:
+            model._skip_dropped()
+        if model.i < len(model.G) or sender.txgs or sender.txbs[1] is not None:
+            if _starved(sender):
+                ctx.violation(STARVED_KEY, f"[{case['kind']}] " + _starved_msg(sender, f"{bound} service rounds"),
+                              trace=trace)
+            elif not sender.txgs and sender.txbs[1] is not None:
+                ctx.violation("stuck:remainder-in-txbs-not-serviced-when-txgs-empty",
+                              f"[{case['kind']}] remainder parked in txbs, txgs empty", trace=trace)
+            else:
+                ctx.violation("stuck:no-progress-within-bound",
+                              f"[{case['kind']}] {bound} rounds did not drain: gram {model.i}/{len(model.G)}", trace=trace)
+            return
+        if len(model.full) + len(model.dropped) != len(model.G):
+            raise AssertionError("harness: ledger does not add up")
+        ctx.count("socket_script_runs")
+        ctx.count("grams_sent_in_full", len(model.full))
+        ctx.count("grams_dropped_unreachable", len(model.dropped))
+        if any(isinstance(o, int) and o == 0 and k > 0 for h in model.hist.values() for k, o in enumerate(h)):
+            ctx.count("sock_wouldblock_on_retry")
+        if transport == "uxd":      # reliable, ordered: every accepted chunk arrived, in order, at its destination
+            for r, d in zip(rcv, dsts):
+                got = []
+                for _ in range(40):
+                    data, _src = r.receive()
+                    if data:
+                        got.append(data)
+                want = [c for c, dd in sender._vf_chunks if dd == d]
+                if got != want:
+                    ctx.violation("real-uxd:received-differs-from-accepted",
+                                  f"[{case['kind']}] peer got {len(got)} datagrams, socket accepted {len(want)}",
+                                  trace=trace)
+                    return
+        ctx.nontrivial([case["kind"], case["script"], case["api"]])
+        ctx.seen("socket_scripts", [transport] + case["script"][:4])
+    except SpinAbort:
+        ctx.violation(STARVED_KEY if _starved(sender) else "spin:service-call-keeps-sending",
+                      f"[{case['kind']}] one service call made {sender._vf_call_sends} send calls; socket script "
+                      f"{case['script']}", trace=trace)
+    except OSError as ex:
+        name = errno.errorcode.get(ex.args[0], str(ex.args[0])) if ex.args else "?"
+        if name in WOULDBLOCK:
+            lost = ""
+            if sender is not None and sender._vf_violation is not None:
+                lost = " AND " + sender._vf_violation.msg[:300]
+            ctx.violation(f"wouldblock-errno-escapes:{name}:{transport}",
+                          f"the OS refused a {transport} sendto with {name} (no buffer space: try again later) and the "
+                          f"service call raised {ex!r} instead of keeping the gram for a retry{lost}; socket script "
+                          f"{case['script']}", trace=trace)
+        else:
+            ctx.violation(ms.escape_key(ex, "tx-escape"), f"[{case['kind']}] service raised {ex!r}", trace=trace)
+    finally:
+        for p in peers:
+            try:
+                p.close()
+            except Exception:
+                pass
+        shutil.rmtree(tmp, ignore_errors=True)
 
 
 def run_real(case, ctx):
